@@ -2,6 +2,7 @@ package checks
 
 import (
 	"fmt"
+	"runtime/debug"
 	"strings"
 	"sync"
 	"time"
@@ -570,6 +571,11 @@ func c20Concurrent(run *ev.Run, viol func(string, string, any), g, rounds int, s
 			r := rng(seed+int64(w)*7919, "c20conc")
 			layer := &ipmi.FullSensorRecord{}
 			<-start
+			defer func() {
+				if pv := recover(); pv != nil {
+					report("concurrent:panic", fmt.Sprintf("goroutine %d of %d: a conversion panicked: %v\n%s", w, g, pv, trimStack(string(debug.Stack()))))
+				}
+			}()
 			for i := 0; i < rounds; i++ {
 				enc := byte((i + w) % 4)
 				n := 2 + r.Intn(30)
